@@ -1,5 +1,5 @@
 """C14 — style inheritance resolves to the nearest definition and always terminates (spec module StyleInh)."""
-import concurrent.futures, json, os, zlib
+import concurrent.futures, json, os, threading, time, zlib
 
 MANIFEST = dict(
     module="StyleInh", ref="§5 C14",
@@ -98,7 +98,77 @@ def judge(ctx, obs, tag):
             info.append(w["sig"][1:])
 
 
+TAGNO = {"enum3": 1, "rmr2": 2, "enum4": 3, "sim": 4}
+
+
+def gen(ctx, tag, *a, **kw):
+    """tlc_gen, then case ids that depend on the plan only (the generation runs of the quick tier are started together,
+    the driver numbers cases by the order in which runs end)."""
+    cases = ctx.tlc_gen("StyleInh_MC.tla", *a, **kw)
+    for i, c in enumerate(cases):
+        c["id"] = TAGNO[tag] * 10000000 + i + 1
+    ctx.cases_by_tag[tag] = {c["id"]: c for c in cases}
+    return cases
+
+
+def split_obs(path, k):
+    """Cut an observation file into k files of whole behaviours (the judge starts afresh at every reset line)."""
+    parts = ["%s.part%d" % (path, i) for i in range(k)]
+    outs = [open(pp, "w") for pp in parts]
+    n = -1
+    with open(path) as f:
+        for line in f:
+            if '"ev":"reset"' in line[:60]:
+                n += 1
+            outs[max(n, 0) % k].write(line)
+    for o in outs:
+        o.close()
+    return parts
+
+
+class Background:
+    """Runs jobs that each start exactly ONE TLC run next to the main line of the pipeline (the model checks and the
+    judge of a finished observation file do not depend on what the main line does meanwhile).  start() returns only
+    after the job's TLC run has taken its sequence number from the driver, so no two runs are ever started at once."""
+
+    def __init__(self, ctx):
+        self.ctx, self.jobs = ctx, []
+
+    def start(self, fn, *a, **kw):
+        seq, box = self.ctx.tlc_seq, {}
+
+        def body():
+            try:
+                box["r"] = fn(*a, **kw)
+            except BaseException as e:      # re-raised by join() on the main line
+                box["e"] = e
+        t = threading.Thread(target=body)
+        t.start()
+        while self.ctx.tlc_seq == seq and t.is_alive():
+            time.sleep(0.01)
+        self.jobs.append((t, box))
+
+    def wait(self):
+        for t, _ in self.jobs:
+            t.join()
+
+    def join(self):
+        self.wait()
+        for _, box in self.jobs:
+            if "e" in box:
+                raise box["e"]
+
+
 def pipeline(ctx, cases_by=None):
+    bg = Background(ctx)
+    try:
+        rc = pipeline1(ctx, bg, cases_by)
+    finally:
+        bg.wait()       # nothing of ours keeps running, whatever happened
+    return rc
+
+
+def pipeline1(ctx, bg, cases_by):
     q = ctx.tier == "quick"
     ctx.assumptions += [
         "element granularity: a style that sets a formatting element sets all of its sub-attributes (e.g. all four of "
@@ -121,56 +191,79 @@ def pipeline(ctx, cases_by=None):
         judge(ctx, obs, "replay")
         return ctx.finish(LEVEL, RULE)
 
-    ctx.tlc_mc("StyleInh_MC.tla", "StyleInh_MC_quick.cfg" if q else "StyleInh_MC_two.cfg", timeout=600)
-    ctx.tlc_mc("StyleInh_MC.tla", paircfg(ctx, "pair.cfg", 1 if q else 2), timeout=600)
+    bg.start(ctx.tlc_mc, "StyleInh_MC.tla", "StyleInh_MC_quick.cfg" if q else "StyleInh_MC_two.cfg", timeout=600, workers=4)
+    bg.start(ctx.tlc_mc, "StyleInh_MC.tla", paircfg(ctx, "pair.cfg", 1 if q else 2), timeout=600, workers=2 if q else 4)
     # (the 4-style registries are checked against the same design-level statements while they are
     #  enumerated: Inv_EnumSound in enum4.cfg; StyleInh_MC_thorough.cfg is the stand-alone 4-style run)
 
     bounds = {}
-    if q:
-        cases = ctx.tlc_gen("StyleInh_MC.tla", enumcfg(ctx, "enum3.cfg", 3, ["compl"], ["plain"]), "enum3", timeout=600)
-        bounds["enum3"] = "3 styles: 5^3 basedOn graphs x 2^3 masks of x, y exactly where x is not x 4 queried ids"
-    else:
-        cases = ctx.tlc_gen("StyleInh_MC.tla", enumcfg(ctx, "enum3.cfg", 3, ["free"], ["clone"]), "enum3", timeout=900)
-        bounds["enum3"] = "3 styles: 5^3 basedOn graphs x 2^3 masks of x x 2^3 masks of y (independent) x 4 queried ids; tail: clone ops"
-    allobs = [exec_grouped(ctx, cases, "enum3")]
     reads = ["Resolve", "ToXML"]
     if q:
         reads = [reads[(ctx.seed + 1) % 2]]     # seed 1: Resolve
-    cases = ctx.tlc_gen("StyleInh_MC.tla", enumcfg(ctx, "rmr2.cfg", 2, ["compl"] if q else ["free"],
-                                                   ["rmr", "clone", "alias"] if q else ["rmr", "alias"], KINDS, reads),
-                        "rmr2", timeout=600)
-    bounds["rmr2"] = ("2 styles: every registry (y %s) x every queried style id: resolve, then every single AddStyle / "
-                      "RemoveStyle / CreateCustomStyle, then resolve again" % ("exactly where x is not" if q else "independent"))
-    if q:
-        bounds["rmr2"] += "; and the same registries x 3 queried ids with tail: clone ops, resolution on the clone"
-    allobs.append(exec_grouped(ctx, cases, "rmr2"))
-    if not q:
-        cases = ctx.tlc_gen("StyleInh_MC.tla", enumcfg(ctx, "enum4.cfg", 4, ["compl"], ["plain"]), "enum4", timeout=1200)
-        bounds["enum4"] = "4 styles: 6^4 basedOn graphs x 2^4 masks of x, y exactly where x is not x 5 queried ids"
-        obs = exec_grouped(ctx, cases, "enum4")
-        judge(ctx, obs, "enum4")
-        judge(ctx, allobs.pop(0), "enum3")
-    ctx.exhaustive = True
-
     d = 7 if q else 12
     kinds = [KINDS[ctx.seed % 3]] if q else KINDS      # seed 1: case, 2: space, 3: name
-    sim = ctx.tlc_gen("StyleInh_MC.tla", simcfg(ctx, "gen_sim.cfg", 3 if q else 4, d, kinds), "sim", mode="sim",
-                      num=45 if q else 400, depth=d + 1, limit=1500 if q else 12000)
-    bounds["sim"] = "%d random operation sequences of length %d over %d styles, all 10 operations" % (len(sim), d, 3 if q else 4)
-    allobs.append(ctx.run_exec("styleinh", sim, "sim", shards=12))
-    if allobs:
-        # one judge run over the remaining observation files (TLC start-up dominates small runs)
-        merged = {}
-        for t in list(ctx.cases_by_tag):
-            merged.update(ctx.cases_by_tag[t])
-        ctx.cases_by_tag["all"] = merged
-        obs = os.path.join(ctx.work, "all.obs.ndjson")
-        with open(obs, "w") as out:
-            for p in allobs:
-                with open(p) as f:
-                    out.write(f.read())
-        judge(ctx, obs, "all")
+    plans = [
+        ("enum3", (enumcfg(ctx, "enum3.cfg", 3, ["compl"] if q else ["free"], ["plain"] if q else ["clone"]), "enum3"), dict(timeout=900)),
+        ("rmr2", (enumcfg(ctx, "rmr2.cfg", 2, ["compl"] if q else ["free"], ["rmr", "clone", "alias"] if q else ["rmr", "alias"],
+                          KINDS, reads), "rmr2"), dict(timeout=900)),
+        ("enum4", (enumcfg(ctx, "enum4.cfg", 4, ["compl"], ["plain"]), "enum4"), dict(timeout=1200)),
+        ("sim", (simcfg(ctx, "gen_sim.cfg", 3 if q else 4, d, kinds), "sim"),
+         dict(mode="sim", num=45 if q else 400, depth=d + 1, limit=1500 if q else 12000)),
+    ]
+    if q:
+        plans = [pl for pl in plans if pl[0] != "enum4"]
+    # quick tier: the generation runs are started together, next to the main line; every observation file is judged
+    # next to the main line as soon as it is complete.  Thorough tier (large files): one run at a time.
+    got = {}
+
+    def produce(tag, a, kw):
+        got[tag] = gen(ctx, tag, *a, **kw)
+    if q:
+        for tag, a, kw in plans:
+            bg.start(produce, tag, a, kw)
+
+    def cases_of(tag):
+        if q:
+            while tag not in got:
+                if not any(t.is_alive() for t, _ in bg.jobs):
+                    bg.join()
+                    raise RuntimeError("generation of %s ended without cases" % tag)
+                time.sleep(0.05)
+        else:
+            produce(*[pl for pl in plans if pl[0] == tag][0])
+        return got[tag]
+
+    def judged(obs, tag, k=1):
+        if not q:
+            return judge(ctx, obs, tag)
+        for part in (split_obs(obs, k) if k > 1 else [obs]):
+            bg.start(judge, ctx, part, tag)
+
+    if q:
+        bounds["enum3"] = "3 styles: 5^3 basedOn graphs x 2^3 masks of x, y exactly where x is not x 4 queried ids"
+    else:
+        bounds["enum3"] = "3 styles: 5^3 basedOn graphs x 2^3 masks of x x 2^3 masks of y (independent) x 4 queried ids; tail: clone ops"
+    judged(exec_grouped(ctx, cases_of("enum3"), "enum3"), "enum3")
+    bounds["rmr2"] = ("2 styles: every registry (y %s) x every queried style id x every single AddStyle / RemoveStyle / "
+                      "CreateCustomStyle / in-place edit mu: resolve, Clone (the copy is put aside unread), mu, resolve again, then "
+                      "on the copy: %s of the same id (its first read), Peek, mu, Peek"
+                      % ("exactly where x is not" if q else "independent", " / ".join(reads)))
+    bounds["alias2"] = ("2 styles: every based-on graph in which a style refers to its parent by an alias (display name, other "
+                        "letter case, added blank) of a style x masks x every style id and every alias used as queried id: "
+                        "Load, Resolve, ToXML, Info")
+    if q:
+        bounds["rmr2"] += "; and every registry x 3 queried ids with tail: clone ops, resolution on the clone"
+    judged(exec_grouped(ctx, cases_of("rmr2"), "rmr2"), "rmr2", 2)
+    if not q:
+        bounds["enum4"] = "4 styles: 6^4 basedOn graphs x 2^4 masks of x, y exactly where x is not x 5 queried ids"
+        judged(exec_grouped(ctx, cases_of("enum4"), "enum4"), "enum4")
+    ctx.exhaustive = True
+
+    sim = cases_of("sim")
+    bounds["sim"] = ("%d random operation sequences of length %d over %d styles, all %d operations (those on the copy included), "
+                     "alias kinds %s" % (len(sim), d, 3 if q else 4, len(ALLOPS), "/".join(kinds)))
+    judge(ctx, ctx.run_exec("styleinh", sim, "sim", shards=12), "sim")
+    bg.join()
     ctx.extra_cov["bounds"] = bounds
     ctx.extra_cov["variants_per_behaviour"] = 20
     ctx.extra_cov["exhaustive_scope"] = ("all (registry, queried id) inputs of bounds.enum*/rmr* are enumerated and executed; resolver "
